@@ -3,7 +3,7 @@ import StirVerif.C02.Model
 
 `cfg <backing> <order> <elemSize> <offset> <minSeg> <maxSeg> <minView> <numViews> <minTang> <numTang> <minTof> <maxTof>
      <numTof> <checkView> <checkTang> <setBinFlushes> <type> <byteorder> scale <p> <q> <setBinScaled> <segSizeChecked>
-     seq <s…> ax <min:num …> tofseq <t…>`
+     <segTangChecked> seq <s…> ax <min:num …> tofseq <t…>`
 fixes the layout, the on-disk number type and the scale factor `p/q`; the store (element slots holding the ON-DISK
 numbers, initially 0) is kept here.  Values in operation lines are the API-level values (integers or fractions `n/q`).
 Every write answers with the slots whose content changed (`d=`), a checksum of their new on-disk values and, for file
@@ -22,6 +22,7 @@ structure St where
   scale : Rat
   binScaled : Bool
   segChecked : Bool
+  segTangChecked : Bool
 
 def I (s : String) : Int := s.toInt?.getD 0
 def N (s : String) : Nat := s.toNat?.getD 0
@@ -40,7 +41,7 @@ def emptyLayout : Layout :=
 def parseCfg (t : List String) : Option St :=
   match t with
   | backing :: order :: size :: off :: minSeg :: maxSeg :: minView :: numViews :: minTang :: numTang :: minTof :: maxTof ::
-      numTof :: chkv :: chkt :: fb :: ty :: _bo :: "scale" :: sp :: sq :: sbs :: chks :: "seq" :: rest =>
+      numTof :: chkv :: chkt :: fb :: ty :: _bo :: "scale" :: sp :: sq :: sbs :: chks :: chkst :: "seq" :: rest =>
     let seq := rest.takeWhile (· ≠ "ax")
     let rest := (rest.dropWhile (· ≠ "ax")).drop 1
     let ax := rest.takeWhile (· ≠ "tofseq")
@@ -63,7 +64,8 @@ def parseCfg (t : List String) : Option St :=
     let total := (sizeAll l).toNat
     let nty : NumType := if ty == "short" then .short else if ty == "ushort" then .ushort else if ty == "int" then .int else .float
     some { l := l, backing := backing, fb := fb == "1", total := total, store := Array.replicate total 0,
-           ty := nty, scale := mkRat (I sp) (N sq), binScaled := sbs == "1", segChecked := chks == "1" }
+           ty := nty, scale := mkRat (I sp) (N sq), binScaled := sbs == "1", segChecked := chks == "1",
+           segTangChecked := chkst == "1" }
   | _ => none
 
 def ranges (v : List Nat) : String :=
@@ -238,6 +240,26 @@ def stepLine (st : St) (line : String) : St × String :=
     | .error e => (st, e)
   | "setvo" :: s :: v :: k :: vals =>
     if oddViewgramAccepted l then doWrite st (addrsViewgram l (I s) (I v) (I k)) (vals.map R) .viewgram else (st, "err")
+  | "setc" :: setter :: s :: idx :: k :: a0 :: a1 :: nv :: t0 :: t1 :: x :: rest =>
+    -- a container setter given a container whose OWN index ranges are a0..a1 (axial), 0..nv-1 (views), t0..t1 (tangential),
+    -- filled with the value x: refused, or (accepted) written position by position as the setter always does
+    let c : CRange := { minAx := I a0, maxAx := I a1, numViews := I nv, minTang := I t0, maxTang := I t1 }
+    let sk : Option (Setter × WriteKind × Except Err (List Int)) :=
+      match setter with
+      | "v" => some (.viewgram, .viewgram, addrsViewgram l (I s) (I idx) (I k))
+      | "s" => some (.sinogram, .sinogram, addrsSinogram l (I s) (I idx) (I k))
+      | "ss" => some (.segBySino, .segment, addrsSegBySino l (I s) (I k))
+      | "sv" => some (.segByView, .segment, addrsSegByView l (I s) (I k))
+      | "rel" => some (.related, .related, addrsRelated l (pairsOf (rest.drop 1)) (I k))
+      | _ => none
+    match sk with
+    | none => (st, "bad-op")
+    | some (sr, wk, addrs) =>
+      if setterAccepts l st.segTangChecked sr (I s) c then
+        match addrs with
+        | .ok as => doWrite st (.ok as) (List.replicate as.length (R x)) wk
+        | .error e => doWrite st (.error e) [] wk
+      else (st, "err")
   | [op, s, k, x] =>
     if op == "setssx" ∨ op == "setsvx" then
       match addrsSegOversized l st.segChecked (I s) (I k) 1 with
@@ -248,6 +270,7 @@ def stepLine (st : St) (line : String) : St × String :=
   | ["hdr2"] => (st, "ok")
   | ["wtf"] => (st, "ok")
   | ["hdrx", _] => (st, "done")
+  | "hdrb" :: _ => (st, "ok")   -- header round trip of an exam information at boundary values: must be equal (oracle-only)
   | _ => (st, "bad-op")
 
 partial def loop (h : IO.FS.Stream) (st : St) : IO Unit := do
@@ -259,5 +282,6 @@ partial def loop (h : IO.FS.Stream) (st : St) : IO Unit := do
 
 def main : IO Unit := do
   loop (← IO.getStdin) { l := emptyLayout, backing := "ss", fb := false, total := 0, store := #[],
-                         ty := .float, scale := 1, binScaled := false, segChecked := false }
+                         ty := .float, scale := 1, binScaled := false, segChecked := false,
+                         segTangChecked := false }
 end Driver.C02
